@@ -43,6 +43,7 @@ const (
 	EvLazyDecoded   uint8 = 2
 	EvLazyPublished uint8 = 3
 	EvInit          uint8 = 4
+	EvLazyEntry     uint8 = 5
 )
 
 // Event is one recorded hook call.
@@ -56,6 +57,7 @@ type Event struct {
 	Obj   uintptr // message / MessageInfo / File
 	Mine  uintptr // lazy events: the freshly decoded object
 	Cell  uintptr // EvLazyPublished: the field pointer after the CAS
+	K, N  int32   // EvLazyEntry: index entry K of N has been merged into Mine
 }
 
 var (
@@ -122,6 +124,14 @@ func LazyEnter(msg unsafe.Pointer, num int32) {
 func LazyDecoded(msg unsafe.Pointer, num int32, mine unsafe.Pointer) {
 	if on.Load() {
 		record(Event{Ev: EvLazyDecoded, Obj: uintptr(msg), Num: num, Mine: uintptr(mine)})
+	}
+}
+
+// LazyEntry is called after index entry k (of n) of the field was merged into
+// the fresh object mine, which must not be published before entry n-1.
+func LazyEntry(msg unsafe.Pointer, num int32, mine unsafe.Pointer, k, n int) {
+	if on.Load() {
+		record(Event{Ev: EvLazyEntry, Obj: uintptr(msg), Num: num, Mine: uintptr(mine), K: int32(k), N: int32(n)})
 	}
 }
 
